@@ -750,6 +750,8 @@ class MTVRPSpec(Spec):
             isb = [False] + [(z3.Bool(f"r{b}_isback{j}") if Bf else False) for j in range(1, n + 1)]
             dl = [s_where(isb[j], 0.0, dem[j]) for j in range(n + 1)]
             db = [s_where(isb[j], dem[j], 0.0) for j in range(n + 1)]
+            # distance limit: a generator parameter (default 3.0); symbolic, constrained as the generator asserts
+            limit = src.real(f"r{b}_limit", 0, None, lo_strict=True) if Lf else inf
             if TWf:
                 e = [0.0] + [src.real(f"r{b}_e{j}", 0, None) for j in range(1, n + 1)]
                 l = [self.MAXT] + [src.real(f"r{b}_l{j}", 0, None) for j in range(1, n + 1)]
@@ -763,14 +765,14 @@ class MTVRPSpec(Spec):
                 e, l, sv = [0.0] * (n + 1), [inf] * (n + 1), [0.0] * (n + 1)
             if Lf:
                 for j in range(1, n + 1):
-                    src.assume(2 * DS.norm2(X[j] - X[0], Y[j] - Y[0]) < self.LIMIT)
-            limit = self.LIMIT if Lf else inf
+                    src.assume(2 * DS.norm2(X[j] - X[0], Y[j] - Y[0]) < limit)
+
             rows.append({"X": X, "Y": Y, "dl": dl, "db": db, "isback": isb, "early": e, "late": l, "service": sv, "limit": limit})
             cols["locs"].append([[x, y] for x, y in zip(X, Y)])
             cols["dl"].append(dl), cols["db"].append(db), cols["limit"].append([limit])
             cols["tw"].append([[a_, b_] for a_, b_ in zip(e, l)]), cols["svc"].append(sv)
             cols["open"].append([Of]), cols["cap"].append([1.0]), cols["cap0"].append([30.0]), cols["speed"].append([1.0])
-        src.ctx.assumptions.add("MTVRP (generator contract): coords in [0,1]; 0<demand<=1 (scaled); speed=1; distance limit 3.0 (> 2*sqrt(2)); TW: service in [0.15,0.18], window length l-e in [0.18,0.2], d(0,j) <= e_j <= 4.6 - service - length - d(0,j); depot window [0,4.6]; L: 2*d(0,j) < 3.0 (asserted by the generator); backhaul pattern arbitrary")
+        src.ctx.assumptions.add("MTVRP (generator contract): coords in [0,1]; 0<demand<=1 (scaled); speed=1; distance limit any positive value; TW: service in [0.15,0.18], window length l-e in [0.18,0.2], d(0,j) <= e_j <= 4.6 - service - length - d(0,j); depot window [0,4.6]; L: 2*d(0,j) < limit (asserted by the generator); backhaul pattern arbitrary")
         td = TensorDict({"locs": ftensor(cols["locs"]), "demand_linehaul": ftensor(cols["dl"]), "demand_backhaul": ftensor(cols["db"]),
                          "distance_limit": ftensor(cols["limit"]), "time_windows": ftensor(cols["tw"]), "service_time": ftensor(cols["svc"]),
                          "open_route": T.Tensor(np.array(cols["open"], dtype=object), T.bool_), "vehicle_capacity": ftensor(cols["cap"]),
